@@ -51,4 +51,4 @@ def standins(tier, seed):
     return K.symcoef_jobs('C04', ['add', 'sub', 'neg', 'reverse', 'involute', 'conjugate'], tier, seed, extra_configs=K.CUSTOM) + _gradesel_jobs(tier, seed)
 
 
-replay = K.replay_operator
+replay = K.replay_any
